@@ -292,54 +292,14 @@ def run(run):
             except common.HarnessError as e:
                 run.canary(name, False, str(e))
                 continue
-            bad = rep.batch(obls, timeout_s=20, expect_sat=True)
-            hit = None
-            for ob, r in bad:
-                if r['result'] == 'sat':
-                    tr = rep.triage(ob, r) if ob.expr is not None else ('model', 0)
-                    if tr:
-                        hit = ob.name
-                        break
-            run.canary(name, hit is not None, hit)
+            rep.canary(name, obls)
         enga.restore()
     run.bounds.update({'series order': 'eps^1 for the phi matrix', 'domain': '|pitch| <= 89 deg; rotation vectors with |v_i| <= 4 (covers norm <= pi)',
                        'taylor threshold': '|v|^2 <= 1e-6 as in the source'})
 
 
 def finish_bad(rep, bad):
-    """sat answers: triage with true functions, replay on the compiled code"""
-    from .. import common
-    run = rep.run
-    specs, obs = [], []
-    for ob, r in bad:
-        if r['result'] != 'sat':
-            continue
-        tr = rep.triage(ob, r)
-        if tr is None:
-            run.error('obligation "%s" is sat under the relaxation but no true-function counterexample was found - inconclusive' % ob.name)
-            continue
-        pt, v = tr
-        specs.append({'property': PROP, 'kind': 'numeric', 'check': (ob.meta or {}).get('check'), 'point': pt,
-                      'obligation': ob.name, 'residual_symbolic': v})
-        obs.append(ob)
-    if not specs:
-        return
-    res = common.run_replays(specs)
-    seen = set()
-    for spec, ob, r in zip(specs, obs, res):
-        if r.get('error'):
-            run.error('replay error for "%s": %s' % (ob.name, r['error']))
-        elif r.get('violated'):
-            key = spec['check']
-            if key in seen:
-                continue
-            seen.add(key)
-            spec = dict(spec)
-            spec['observed'] = r.get('detail')
-            path = common.write_replay(PROP, spec)
-            run.violation('%s; real code: %s' % (ob.name, r.get('detail')), path)
-        else:
-            run.error('obligation "%s" fails symbolically (residual %.3g at %s) but the compiled code satisfies the numeric oracle - inconclusive' % (ob.name, spec['residual_symbolic'], spec['point']))
+    rep.finish(bad, PROP)
 
 
 def validate_euler(rep, info):
